@@ -68,6 +68,14 @@ class DictOf(Shape):
     def pred(self, t):
         return z3.And(V.is_VDict(t), self.all_fn()(V.vd(t)))
 
+    def pair_pred(self, p):
+        return z3.And(V.is_VTuple(p), V.is_VCons(V.vt(p)), V.is_VCons(V.tl(V.vt(p))), V.is_VNil(V.tl(V.tl(V.vt(p)))),
+                      self.key.pred(V.pkey(p)), self.value.pred(V.pval(p)))
+
+    def on_assume(self, ctx, t):
+        from .shapes import _guarded_on_assume
+        _guarded_on_assume(ctx, self, t, z3.BoolVal(True))
+
 
 JSON_DEEP = Rec("Json", lambda self: OneOf(NoneT, Bool, Int, Float, Str, ListOf(self, name="all_json"),
                                            DictOf(Str, self, name="all_json_members")))
@@ -80,44 +88,75 @@ JSON = OneOf(NoneT, Bool, Int, Float, Str, Pred(V.is_VList, "list"), JOBJ)
 
 # --------------------------------------------------------------------------- maps (comprehension spec side)
 
+class SpecMap:
+    """Spec-level filter-map over a VL:  [body(v) for v in xs if keep(v)]  as a recursive function.
+    `apply(path, xs)` returns the VL term and applies the extensionality rule: if the code under proof built a
+    comprehension over the same list, pointwise agreement of keep-conditions and bodies (proved as its own
+    obligation `map-ext@<site>` for an arbitrary element satisfying the element facts) yields equality."""
+    _count = [0]
+
+    def __init__(self, name, body_fn, keep_fn=None):
+        SpecMap._count[0] += 1
+        self.name = f"{name}!s{SpecMap._count[0]}"
+        self.var = z3.Const(f"__selem_{SpecMap._count[0]}__", V.Val)
+        self.fn = z3.RecFunction(self.name, V.VL, V.VL)
+        self.body_fn, self.keep_fn = body_fn, keep_fn
+        self._defined = False
+
+    def define(self):
+        if self._defined:
+            return
+        self._defined = True
+        self.body = z3.simplify(lower(self.body_fn(self.var)))
+        self.keep = None if self.keep_fn is None else z3.simplify(self.keep_fn(self.var))
+        l = z3.FreshConst(V.VL, "l")
+        step = z3.substitute(self.body, (self.var, V.hd(l)))
+        rec = V.VCons(step, self.fn(V.tl(l)))
+        if self.keep is not None:
+            rec = z3.If(z3.substitute(self.keep, (self.var, V.hd(l))), rec, self.fn(V.tl(l)))
+        z3.RecAddDefinition(self.fn, [l], z3.If(V.is_VNil(l), V.VNil, rec))
+
+    def __call__(self, xs):
+        self.define()
+        return self.fn(xs)
+
+    def apply(self, path, xs):
+        self.define()
+        xs = z3.simplify(xs)
+        for cname, m in list(path.ctx.__dict__.get("maps_used", {}).items()):
+            if not z3.simplify(m["xs"]).eq(xs):
+                continue
+            done = path.ctx.__dict__.setdefault("map_ext_done", set())
+            key = (cname, self.name, xs.get_id(), id(path))
+            if key in done:
+                continue
+            done.add(key)
+            v = path.fresh("ext")
+            cbody = z3.substitute(m["body"], (m["var"], v))
+            sbody = z3.substitute(self.body, (self.var, v))
+            ckeep = z3.BoolVal(True) if m.get("keep") is None else z3.substitute(m["keep"], (m["var"], v))
+            skeep = z3.BoolVal(True) if self.keep is None else z3.substitute(self.keep, (self.var, v))
+            facts = [V.vl_contains(xs, v)]
+            ent = path.ctx.__dict__.get("elem_shapes", {}).get(xs.get_id())
+            if ent is not None:
+                facts.append(ent(v))
+            site = m["site"].split(":", 1)[1] if ":" in m["site"] else m["site"]
+            ob = path.oblige(f"map-ext@{site}", z3.Implies(z3.And(*facts), z3.And(ckeep == skeep, z3.Implies(skeep, cbody == sbody))),
+                             "lemma", detail="pointwise equality of comprehension body and spec body (map extensionality)")
+            if ob.status == "unsat":
+                path.assume(m["fn"](xs) == self.fn(xs))
+        return self.fn(xs)
+
+
 _SPEC_MAPS = {}
 
 
 def spec_map(path, xs, body_fn, name="specmap"):
-    """Spec-level [body_fn(v) for v in xs] over a VL term.  If the code under proof built a map over the same
-    list, the extensionality rule is applied: pointwise equality of the bodies (proved as its own obligation
-    `map-ext@<site>`, for an arbitrary element satisfying the element facts) gives equality of the maps."""
-    elem = path.fresh("selem")
-    body = z3.simplify(lower(body_fn(elem)))
-    canon = z3.Const("__selem__", V.Val)
-    key = (name, z3.substitute(body, (elem, canon)).sexpr())
-    f = _SPEC_MAPS.get(key)
-    if f is None:
-        fname = f"{name}!{len(_SPEC_MAPS) + 1}"
-        f = z3.RecFunction(fname, V.VL, V.VL)
-        l = z3.FreshConst(V.VL, "l")
-        z3.RecAddDefinition(f, [l], z3.If(V.is_VNil(l), V.VNil,
-                                          V.VCons(z3.substitute(body, (elem, V.hd(l))), f(V.tl(l)))))
-        _SPEC_MAPS[key] = f
-    xs = z3.simplify(xs)
-    for cname, m in list(path.ctx.__dict__.get("maps_used", {}).items()):
-        if m.get("keep") is not None:
-            continue
-        if z3.simplify(m["xs"]).eq(xs):
-            v = path.fresh("ext")
-            cbody = z3.substitute(m["body"], (m["var"], v))
-            sbody = z3.substitute(body, (elem, v))
-            facts = [V.vl_contains(xs, v)]
-            table = path.ctx.__dict__.get("elem_shapes", {})
-            ent = table.get(xs.get_id())
-            if ent is not None:
-                facts.append(ent(v))
-            ob = path.oblige(f"map-ext@{m['site'].split(':', 1)[1] if ':' in m['site'] else m['site']}",
-                             z3.Implies(z3.And(*facts), cbody == sbody), "lemma",
-                             detail="pointwise equality of comprehension body and spec body (map extensionality)")
-            if ob.status == "unsat":
-                path.assume(m["fn"](xs) == f(xs))
-    return V.VList(f(xs))
+    """convenience: non-recursive spec map built from a Python function over one Val term (cached by name)"""
+    sm = _SPEC_MAPS.get(name)
+    if sm is None:
+        sm = _SPEC_MAPS[name] = SpecMap(name, body_fn)
+    return V.VList(sm.apply(path, xs))
 
 
 def in_strs(t, strings):
